@@ -195,8 +195,8 @@ func genC05(t *rapid.T) c05Case {
 	if rapid.IntRange(0, 5).Draw(t, "cycle") == 0 {
 		plain := vLayout{Indent: "  ", Sep: ": ", EOL: "\n"}
 		c.S.Book.Recs = append(c.S.Book.Recs,
-			vRec{Head: "cyc=0", HL: vLayout{EOL: "\n"}, Lines: []vLine{{Kind: vkEntry, Name: "cyc=1", Num: "1", L: plain}}},
-			vRec{Head: "cyc=1", HL: vLayout{EOL: "\n"}, Lines: []vLine{{Kind: vkEntry, Name: "cyc=0", Num: "2", L: plain}}})
+			vRec{Head: "cyc~0", HL: vLayout{EOL: "\n"}, Lines: []vLine{{Kind: vkEntry, Name: "cyc~1", Num: "1", L: plain}}},
+			vRec{Head: "cyc~1", HL: vLayout{EOL: "\n"}, Lines: []vLine{{Kind: vkEntry, Name: "cyc~0", Num: "2", L: plain}}})
 		c.S.Book.NoFinalNL = false
 	}
 	return c
